@@ -15,7 +15,7 @@ from checks import common as C
 import pyclifford as pc
 
 
-def build_circuit(N, prog, cls='Circuit', compile_before=None):
+def build_circuit(N, prog, cls='Circuit', compile_before=None, compile_mid=None):
     """prog: list of gate dicts; {'kind':'measure','qubits':[..]} and {'kind':'rand','qubits':[..]} allowed for Circuit.
     compile_before = index of a measure item: compile() is called on the (complete, still unitary or not) prefix right before that measurement
     is appended - everything appended after a measurement layer lives in new, uncompiled layers, so no compiled map is stale."""
@@ -25,6 +25,8 @@ def build_circuit(N, prog, cls='Circuit', compile_before=None):
         if compile_before is not None and i == compile_before:
             assert gd['kind'] == 'measure'
             circ.compile()
+        if compile_mid is not None and i == compile_mid:
+            circ.compile()          # compiled in the middle of the build: the caller must compile again before running (gates may join compiled layers)
         if gd['kind'] == 'measure':
             if gd.get('via') == 'take':        # documented alternative: hand over the layer object
                 circ.take(pc.MeasureLayer(*gd['qubits'], N=N))
